@@ -113,6 +113,15 @@ Proof.
 Qed.
 End Thms.
 
+(* Full statements of which only a part is proved (kept as propositions, not claimed):
+   - reducedness of omega_reduce for an ARBITRARY hurry-up oracle (the collapse in the middle of the
+     loop): would need transitivity of entailment and `a entails ub a b' as additional laws;
+   - truth of the flag pairwise_reduce leaves set, and sufficiency of the fuel of its do-while loop. *)
+Definition omega_reduce_reduced_full : Prop :=
+  forall d, laws d -> forall hurry s, Wf d s -> Flag d (Omega d hurry s) = true /\ Really_reduced d (Omega d hurry s).
+Definition pairwise_reduce_flag_truth_full : Prop :=
+  forall d, laws d -> bot_complete d -> forall s, Wf d s -> Wf d (PairwiseReduce d never s).
+
 (* ------------------------------------------------------------------------------------------ *)
 (* a concrete domain: finite sets of naturals (points are naturals) *)
 Definition fs_mem (x : nat) (a : list nat) : bool := existsb (Nat.eqb x) a.
